@@ -91,6 +91,8 @@ class _G:
             node["default"] = {"t": "tmpl", "s": self.tmpl_text(params=False)}
         elif r == 7:
             node["default"] = {"t": "factory", "v": self.pick(U.HASHABLE_DISPATCH if hashable else U.SCALARS + [[1]])}
+            if self.p.get("faults") and self.chance(0.2):
+                node["default"]["raises"] = self.pick(EXC_TYPES)
         elif r >= 8:
             node["default"] = {"t": "node", "n": self.opt(hashable) if self.chance(0.7) else self.leaf(hashable)}
         if self.p["domains"] and self.chance(self.p.get("domain_rate", 0.025)):
@@ -172,7 +174,7 @@ class _G:
             return self.leaf(hashable) if hashable else {"k": "ref", "name": self.pick(self.defs)["name"]}
         if k == "apply":
             if self.chance(0.6) or hashable:
-                fn = {"name": self.pick(["isnone", "tostr"] if hashable else APPLY_FNS)}
+                fn = {"name": self.pick(["isnone", "tostr"] if hashable else APPLY_FNS + (["boomnone"] if self.p.get("faults") else []))}
             else:
                 fn = {"step": "pair", "param": self.node(0, hashable=False)}
             return {"k": "apply", "src": self.node(d, hashable, lazy_ok=False), "fn": fn}
@@ -257,6 +259,8 @@ class _G:
         s = {"name": f"{prefix}{self.counter}"}
         if self.chance(0.5):
             s["param"] = self.opt(keys=["B", "C", "T", "S.Y", "E"])
+        if self.p.get("faults") and self.chance(0.3):
+            s["raises"] = {"exc": self.pick(EXC_TYPES), "when": self.pick(["always", "value_has_none", "value_has_none"])}
         return s
 
     def dataset_def(self, idx, hashable=False):
@@ -401,3 +405,48 @@ def normalise(spec, flags, ctx=None):
         for a in applied:
             ctx.exclude(a)
     return spec
+
+
+def static_choosers(spec):
+    """Names of bodies that can run while a branch-selecting value is computed somewhere in the program:
+    everything reachable (through dataset references) from a dispatch, bind source, case dispatch or
+    predicate argument, or Map iterable."""
+    defs = {d["name"]: d for d in spec["defs"]}
+    roots = []
+
+    def collect(n):
+        k = n["k"]
+        if k == "switch" and not isinstance(n["disp"], str):
+            roots.append(n["disp"])
+        elif k == "bind":
+            roots.append(n["src"])
+        elif k == "case":
+            roots.append(n["disp"])
+            for p, _ in n["cases"]:
+                if "arg" in p:
+                    roots.append(p["arg"])
+        elif k == "map":
+            for _, it in n["iters"]:
+                roots.append(it)
+
+    walk(spec, collect)
+    for d in spec["defs"]:
+        if d.get("dispatch") is not None and not isinstance(d["dispatch"], str):
+            roots.append(d["dispatch"])
+    out, seen = set(), set()
+
+    def reach(node):
+        found = []
+        walk(node, lambda n: found.append(n))
+        for n in found:
+            if n["k"] == "ovfn":
+                out.add(n["name"])
+            name = n.get("name") if n["k"] == "ref" else n.get("base") if n["k"] == "derived" else None
+            if name and name not in seen:
+                seen.add(name)
+                out.add(name)
+                reach(defs[name])
+
+    for r in roots:
+        reach(r)
+    return out
